@@ -76,6 +76,9 @@ structure St where
   -- per handle (`pika::thread` object)
   hid : Nat → Option Nat          -- `id_` (none = invalid_thread_id)
   mtx : Nat → Option Nat          -- holder of `mtx_`
+  -- follow-up C13m: handle moves
+  owner : Nat → Option Nat := fun _ => none  -- ghost, per task: the handle whose `id_` refers to it
+  errs : Nat := 0                 -- history: `std::terminate` events (destruction of / assignment onto a joinable handle)
 
 inductive Ev where
   | term (o : Nat)
@@ -110,13 +113,25 @@ inductive Ev where
   | jtDtor (h j : Nat)
   | jtStop (h j : Nat) (f : Bool)
   | jtJoined (h j : Nat)
+  -- follow-up C13m: handle operations (`o` = the id that ends up in `this`, as logged by the hook)
+  | mvCtor (h h1 : Nat) (o : Option Nat)     -- `thread(thread&& rhs)`: `h` = this, `h1` = rhs
+  | mvAssign (h h1 : Nat) (o : Option Nat)   -- `operator=(thread&& rhs)` on a non-joinable `this`
+  | mvTerm (h h1 : Nat)                      -- `operator=(thread&&)` on a joinable `this`: throws in a noexcept function
+  | swap (h h1 : Nat) (o : Option Nat)       -- `swap(rhs)`
+  | dtorOk (h j : Nat)                       -- `~thread` of a handle that is not joinable
+  | dtorTerm (h j : Nat)                     -- `~thread` of a joinable handle: termination handler / `std::terminate`
+  | jtSkip (h j : Nat)                       -- `~jthread` of a jthread that is not joinable: nothing to do
   deriving Repr
 
 def init : St :=
   { phase := fun _ => .fresh, jpc := fun _ => .out, tok := fun _ => 0, funcs := fun _ => [],
     ran := fun _ => false, term := fun _ => false, isThread := fun _ => false, req := fun _ => false,
     en := fun _ => true, dt := fun _ => none, lastJoin := fun _ => none, interrupted := fun _ => false,
-    hid := fun _ => none, mtx := fun _ => none }
+    hid := fun _ => none, mtx := fun _ => none, owner := fun _ => none, errs := 0 }
+
+/-- `owner` update: the task named by `x` (if any) gets owner `v` -/
+def setOwn (ow : Nat → Option Nat) (x : Option Nat) (v : Option Nat) : Nat → Option Nat :=
+  fun t => if x = some t then v else ow t
 
 /-- a task inside `~jthread` may only join that handle, and only after `request_stop()` -/
 def dtAllows : Option (Nat × Bool) → Nat → Bool
@@ -136,8 +151,9 @@ def step (s : St) : Ev → Option St
     else none
   | .start h o _ =>
     -- `start_thread`: `create_thread(data, id_, ec)` bound the handle to the new task
-    if s.hid h = none ∧ s.mtx h = none ∧ (s.isThread o = true ∨ (s.phase o = .fresh ∧ s.term o = false)) then
-      some { s with isThread := upd s.isThread o true, hid := upd s.hid h (some o) }
+    if s.hid h = none ∧ s.mtx h = none ∧ (s.isThread o = true ∨ (s.phase o = .fresh ∧ s.term o = false)) ∧
+        s.owner o = none then
+      some { s with isThread := upd s.isThread o true, hid := upd s.hid h (some o), owner := upd s.owner o (some h) }
     else none
   | .body o =>
     if s.phase o = .fresh ∧ s.term o = false ∧ s.jpc o = .out then
@@ -194,17 +210,19 @@ def step (s : St) : Ev → Option St
     match s.jpc j with
     | .refused h' o => if h' = h ∧ s.mtx h = some j then
         some { s with jpc := upd s.jpc j .out, lastJoin := upd s.lastJoin j (some (h, o)),
-                      hid := upd s.hid h none, mtx := upd s.mtx h none }
+                      hid := upd s.hid h none, mtx := upd s.mtx h none, owner := setOwn s.owner (s.hid h) none }
       else none
     | .woke h' o => if h' = h ∧ s.mtx h = none then
         some { s with jpc := upd s.jpc j .out, lastJoin := upd s.lastJoin j (some (h, o)),
-                      hid := upd s.hid h none }
+                      hid := upd s.hid h none, owner := setOwn s.owner (s.hid h) none }
       else none
     | _ => none
   | .joinable h _ r =>
     if s.mtx h = none ∧ r = (s.hid h).isSome then some s else none
   | .detach h _ r =>
-    if s.mtx h = none ∧ r = (s.hid h).isSome then some { s with hid := upd s.hid h none } else none
+    if s.mtx h = none ∧ r = (s.hid h).isSome then
+      some { s with hid := upd s.hid h none, owner := setOwn s.owner (s.hid h) none }
+    else none
   | .uadd o j k =>
     if s.jpc j = .out ∧ s.phase j = .body ∧ o ≠ j then
       some { s with jpc := upd s.jpc j (.uadd o k) }
@@ -284,7 +302,8 @@ def step (s : St) : Ev → Option St
   | .ipClear o =>
     if s.phase o = .hit then some { s with phase := upd s.phase o .unwinding, req := upd s.req o false } else none
   | .jtDtor h j =>
-    if s.dt j = none ∧ s.jpc j = .out ∧ s.phase j = .body then
+    -- (C13m) the destructor enters this branch only when `joinable()` returned true
+    if s.dt j = none ∧ s.jpc j = .out ∧ s.phase j = .body ∧ (s.hid h).isSome = true then
       some { s with dt := upd s.dt j (some (h, false)) }
     else none
   | .jtStop h j f =>
@@ -297,5 +316,35 @@ def step (s : St) : Ev → Option St
     if s.dt j = some (h, true) ∧ s.jpc j = .out ∧ joinedH (s.lastJoin j) h = true then
       some { s with dt := upd s.dt j none }
     else none
+  | .mvCtor h h1 o =>
+    -- `lock(rhs.mtx_); id_ = rhs.id_; rhs.id_ = invalid`; `this` is under construction
+    if h ≠ h1 ∧ s.hid h = none ∧ s.mtx h = none ∧ s.mtx h1 = none ∧ o = s.hid h1 then
+      some { s with hid := upd (upd s.hid h1 none) h o, owner := setOwn s.owner o (some h) }
+    else none
+  | .mvAssign h h1 o =>
+    -- `lock(mtx_); lock(rhs.mtx_); !joinable_locked(); id_ = rhs.id_; rhs.id_ = invalid`
+    if h ≠ h1 ∧ s.hid h = none ∧ s.mtx h = none ∧ s.mtx h1 = none ∧ o = s.hid h1 then
+      some { s with hid := upd (upd s.hid h1 none) h o, owner := setOwn s.owner o (some h) }
+    else none
+  | .mvTerm h h1 =>
+    -- `joinable_locked()`: both locks are released and `invalid_status` is thrown out of a `noexcept` function
+    if h ≠ h1 ∧ (s.hid h).isSome = true ∧ s.mtx h = none ∧ s.mtx h1 = none then
+      some { s with errs := s.errs + 1 }
+    else none
+  | .swap h h1 o =>
+    -- `lock(mtx_); lock(rhs.mtx_); std::swap(id_, rhs.id_)`
+    if h ≠ h1 ∧ s.mtx h = none ∧ s.mtx h1 = none ∧ o = s.hid h1 then
+      some { s with hid := upd (upd s.hid h1 (s.hid h)) h o,
+                    owner := setOwn (setOwn s.owner (s.hid h) (some h1)) o (some h) }
+    else none
+  | .dtorOk h _ =>
+    if s.hid h = none ∧ s.mtx h = none then some s else none
+  | .dtorTerm h _ =>
+    -- the handle (and its reference to the thread) goes away while the thread may still be running
+    if (s.hid h).isSome = true ∧ s.mtx h = none then
+      some { s with hid := upd s.hid h none, owner := setOwn s.owner (s.hid h) none, errs := s.errs + 1 }
+    else none
+  | .jtSkip h j =>
+    if s.hid h = none ∧ s.dt j = none then some s else none
 
 end PikaVerif.Join
